@@ -214,6 +214,24 @@ theorem serve_append (servers : Registry) (a b : List (Msg × HandleResult))
     | sends d => simp [ih']
     | silent => simp [ih']
 
+theorem serveInc_dead (servers : Registry) (l : List (Msg × HandleResult)) : serveInc servers false l = [] := by
+  induction l with
+  | nil => rfl
+  | cons x rest ih => simp [serveInc, serveStep, ih]
+
+/-- the request-at-a-time loop the driver runs is `serve` -/
+theorem serve_eq_serveInc (servers : Registry) (l : List (Msg × HandleResult)) :
+    serve servers l = serveInc servers true l := by
+  induction l with
+  | nil => rfl
+  | cons x rest ih =>
+    obtain ⟨req, h⟩ := x
+    simp only [serve, serveInc, serveStep, if_true]
+    cases hr : react servers req h with
+    | propagates => simp [serveInc_dead]
+    | sends d => simp [ih]
+    | silent => simp [ih]
+
 /-! ### the generated dispatch -/
 theorem gen_unknown_method (srv : Server) (mid : Nat) (ex : Option Exc) (u : User)
     (h : findMethod mid srv.methods = none) : generatedHandle srv mid ex u = notImplemented := by
